@@ -422,14 +422,14 @@ func isDangerousProcPath(path string) bool {
 }
 
 func resolveTraceePath(pid int, base string, p string) string {
-	p = normalizeProcMagicPath(pid, p)
 	if !filepath.IsAbs(p) {
 		if base == "" {
 			base = getProcCwd(pid)
 		}
-		p = filepath.Join(base, p)
+		// no lexical cleaning here: a ".." applies to the directory that the
+		// components before it resolve to, not to their names
+		p = base + "/" + p
 	}
-	p = filepath.Clean(p)
 
 	for range maxSymlinkDepth {
 		next, changed := resolveTraceePathOnce(pid, p)
@@ -438,13 +438,16 @@ func resolveTraceePath(pid int, base string, p string) string {
 		}
 		p = next
 	}
-	return p
+	return filepath.Clean(p)
 }
 
+// resolveTraceePathOnce walks p component by component the way the kernel does.
+// cur is always the clean, symlink-free path of the components walked so far. At
+// the first symbolic link it returns the path with the link replaced by its
+// target (not cleaned, so that a following ".." is applied after the target has
+// been resolved) and true.
 func resolveTraceePathOnce(pid int, p string) (string, bool) {
-	if p == "/" {
-		return p, false
-	}
+	traceeProc := "/proc/" + strconv.Itoa(pid)
 
 	cur := "/"
 	rest := strings.Split(strings.TrimPrefix(p, "/"), "/")
@@ -454,13 +457,21 @@ func resolveTraceePathOnce(pid int, p string) (string, bool) {
 		}
 		if part == ".." {
 			cur = filepath.Dir(cur)
-			if cur == "." {
-				cur = "/"
-			}
 			continue
 		}
 
 		candidate := filepath.Join(cur, part)
+		// /proc/self and /proc/thread-self name whoever reads them: take the
+		// tracee's entries instead of following the links as the tracer
+		switch candidate {
+		case "/proc/self":
+			cur = traceeProc
+			continue
+		case "/proc/thread-self":
+			cur = filepath.Join(traceeProc, "task", strconv.Itoa(pid))
+			continue
+		}
+
 		lstatPath := filepath.Join(fmt.Sprintf("/proc/%d/root", pid), candidate)
 		fi, err := os.Lstat(lstatPath)
 		if err != nil || fi.Mode()&os.ModeSymlink == 0 {
@@ -473,16 +484,13 @@ func resolveTraceePathOnce(pid int, p string) (string, bool) {
 			cur = candidate
 			continue
 		}
-		target = normalizeProcMagicPath(pid, target)
 		if !filepath.IsAbs(target) {
-			target = filepath.Join(filepath.Dir(candidate), target)
+			target = cur + "/" + target
 		}
-		target = filepath.Clean(target)
-
 		if i+1 < len(rest) {
-			target = filepath.Join(target, filepath.Join(rest[i+1:]...))
+			target = target + "/" + strings.Join(rest[i+1:], "/")
 		}
-		return filepath.Clean(target), true
+		return target, true
 	}
-	return filepath.Clean(cur), false
+	return cur, false
 }
